@@ -30,11 +30,14 @@ def line_findings(name, line, addr_header=False):
             toks = [t for t in ln.replace(b"\t", b" ").split(b" ")]
             if any(1 + len(t) > 78 for t in toks):
                 pass          # a single token that cannot fit any line
+            elif i == 0 and ln.split(b":", 1)[-1].strip(b" \t") == b"" and len(ln.split(b":", 1)[0]) + 2 <= 78:
+                pass          # a name of up to 76 octets, its colon and SP, then white space only: any fold would leave a line of white
+                              # space only, which must not be generated (RFC 5322 3.2.2); the name with ": " is the unbreakable unit here
             elif any(b"\t" in w and 1 + len(w) > 78 for w in ln.split(b" ")):
                 out.append(("F29-tab-inside-word-not-folded", "line %d has %d octets: a word containing TABs is only folded at spaces" % (i, len(ln))))
             elif b"  " in ln or ln.endswith(b" "):
                 out.append(("F7-space-runs-not-folded", "line %d has %d octets with a run of blanks" % (i, len(ln))))
-            elif i == 0 and b" " not in ln.split(b": ", 1)[-1].strip(b" ") and b"\t" not in ln.split(b": ", 1)[-1]:
+            elif i == 0 and len([w for w in ln.split(b": ", 1)[-1].split(b" ") if w]) <= 1:        # (the encoder's words are what stands between SP octets)
                 out.append(("F27-first-word-not-folded", "first line has %d octets (name + first word)" % len(ln)))
             elif addr_header:
                 out.append(("F26-address-list-not-folded", "line %d has %d octets" % (i, len(ln))))
